@@ -256,6 +256,126 @@ def rule_ecshift(ctx):
     ctx.floor(rid + ".sites", 2)
 
 
+def rule_region_arith(ctx):
+    """the rectangle arithmetic of jxl_render::Region, evaluated from MIR, equals its set-theoretic meaning"""
+    from .. import absint
+    rid = "R-REGION-ARITH"
+    ctx.rule(rid, "every render region is computed with Region's methods; a result that is too small leaves requested pixels unrendered "
+                  "(they show up as differences between a cropped and a full render), one that is misplaced renders other pixels.  "
+                  "downsample / downsample_separate (the image of the pixel set under x -> x >> f, for unaligned and negative left / "
+                  "top), upsample, intersection, merge, contains, pad, translate and container_aligned are evaluated from MIR over "
+                  "concrete rectangles (aligned and unaligned, negative offsets, empty, one pixel) and compared with the definition "
+                  "computed on pixel sets.  downsample_with_shift is not covered (it does not widen for unaligned edges by design; its "
+                  "call sites are guarded, R-GUARD D28 / D48)")
+    cr = ctx.prog.crate("jxl_render")
+    adt = cr.adts.get("jxl_render::region::Region")
+    names = [x[0] for x in adt["variants"][0]["fields"]] if adt else []
+    if sorted(names) != ["height", "left", "top", "width"]:
+        ctx.anchor_missing(rid, "Region { left, top, width, height }")
+        return
+
+    def S(r):
+        return absint.Struct([dict(zip(("left", "top", "width", "height"), r))[n] for n in names])
+
+    def U(st):
+        if not isinstance(st, absint.Struct):
+            return None
+        d = dict(zip(names, st.fields))
+        return (d["left"], d["top"], d["width"], d["height"])
+
+    def call(fname, args):
+        f = cr.fns.get("jxl_render::region::Region::" + fname)
+        if f is None:
+            return "missing"
+        ev = absint.Evaluator(ctx.prog)
+        ev.wrap_casts = True
+        return ev.call_fn(f, args)
+
+    rects = [(0, 0, 16, 16), (3, 5, 7, 4), (1, 1, 2, 2), (-5, -3, 9, 11), (-8, 0, 8, 3), (7, 2, 1, 1), (6, 9, 10, 1), (-1, -1, 1, 1), (4, 4, 0, 5), (2, 3, 5, 0)]
+
+    def span_ds(lo, n, f):
+        if n == 0:
+            return None
+        a, b = lo >> f, (lo + n - 1) >> f
+        return a, b - a + 1
+
+    rows, bad, undec, missing = 0, [], None, []
+
+    def chk(fname, args, want, desc, empty_ok=False):
+        nonlocal rows, undec
+        if undec:
+            return
+        try:
+            r = call(fname, args)
+        except absint.Unsupported as e:
+            undec = "%s: %s" % (fname, e)
+            return
+        if r == "missing":
+            if fname not in missing:
+                missing.append(fname)
+            return
+        rows += 1
+        got = U(r) if isinstance(r, absint.Struct) else r
+        if empty_ok and isinstance(got, tuple) and isinstance(want, tuple) and (want[2] == 0 or want[3] == 0):
+            ok = got[2] == 0 or got[3] == 0
+        else:
+            ok = got == want
+        if not ok:
+            bad.append((fname, desc, got, want))
+
+    for r in rects:
+        l, t, w, h = r
+        for f in (0, 1, 2, 3):
+            if w and h:
+                sx, sy = span_ds(l, w, f), span_ds(t, h, f)
+                chk("downsample", [S(r), f], (sx[0], sy[0], sx[1], sy[1]), "%s by 2^%d" % (r, f))
+            chk("upsample", [S(r), f], (l << f, t << f, w << f, h << f), "%s by 2^%d" % (r, f))
+        for fx, fy in ((1, 0), (0, 2), (3, 1)):
+            if w and h:
+                sx, sy = span_ds(l, w, fx), span_ds(t, h, fy)
+                chk("downsample_separate", [S(r), fx, fy], (sx[0], sy[0], sx[1], sy[1]), "%s by 2^%d x 2^%d" % (r, fx, fy))
+        chk("translate", [S(r), -3, 4], (l - 3, t + 4, w, h), "%s by (-3, 4)" % (r,))
+        chk("pad", [S(r), 2], (l - 2, t - 2, w + 4, h + 4), "%s by 2" % (r,))
+        for dim in (8,):
+            if w and h:
+                a, b = (l // dim) * dim, -((-(l + w)) // dim) * dim
+                c, d = (t // dim) * dim, -((-(t + h)) // dim) * dim
+                chk("container_aligned", [S(r), dim], (a, c, b - a, d - c), "%s to multiples of %d" % (r, dim))
+        for q in rects:
+            ql, qt, qw, qh = q
+            ix0, ix1 = max(l, ql), min(l + w, ql + qw)
+            iy0, iy1 = max(t, qt), min(t + h, qt + qh)
+            if w and h and qw and qh and ix0 < ix1 and iy0 < iy1:
+                want = (ix0, iy0, ix1 - ix0, iy1 - iy0)
+            else:
+                want = (0, 0, 0, 0)
+            chk("intersection", [S(r), S(q)], want, "%s with %s" % (r, q), empty_ok=True)
+            if not (w and h):
+                wm = q
+            elif not (qw and qh):
+                wm = r
+            else:
+                x0, y0 = min(l, ql), min(t, qt)
+                wm = (x0, y0, max(l + w, ql + qw) - x0, max(t + h, qt + qh) - y0)
+            if (w and h) or (qw and qh):
+                chk("merge", [S(r), S(q)], wm, "%s with %s" % (r, q))
+            cont = (not (qw and qh)) or (l <= ql and t <= qt and l + w >= ql + qw and t + h >= qt + qh)
+            chk("contains", [S(r), S(q)], int(cont), "%s contains %s" % (r, q))
+    ctx.count(rid + ".rows", rows)
+    for m in missing:
+        ctx.anchor_missing(rid, "jxl_render::region::Region::" + m)
+    if undec:
+        ctx.bad(rid, "region|not-evaluable", "a Region method is no longer a function the evaluator can decide (%s)" % undec)
+        return
+    ctx.floor(rid + ".rows", 400)
+    if not bad:
+        ctx.ok(rid, "region|set-semantics", "%d evaluations equal the definition on pixel sets" % rows, nontrivial=True)
+    else:
+        fname, desc, got, want = bad[0]
+        ctx.bad(rid, "region|set-semantics|" + fname, "Region::%s, %s: returns %s, the definition gives %s (left, top, width, height; %d of %d "
+                "evaluations differ, in %s)" % (fname, desc, got, want, len(bad), rows, sorted({b[0] for b in bad})))
+
+
 def main(pid, tier, repo=None):
     ctx = Ctx(pid, tier, configs=("workspace",), repo=repo)
     rule_region_reset(ctx)
@@ -264,6 +384,7 @@ def main(pid, tier, repo=None):
     rule_base_region(ctx)
     from . import c15
     c15.rule_orient_region(ctx)     # the requested rectangle reaches the frame in stored coordinates
+    rule_region_arith(ctx)
     from . import fixguards
     fixguards.run(ctx, pid)
     ctx.not_decided("the padding amounts for Gabor / upsampling / chroma upsampling / LF smoothing and the group selection (numeric)")
